@@ -135,8 +135,11 @@ package pool
 //@ loop 1 invariant [count] len(remotes) <= rangeidx && numRequestHosts > 0 && (len(remotes) < numRequestHosts || rangeidx == 0)
 //@ loop 2 invariant [lock] !held(p.mu) && spawncount(0) == rangeidx && len(remotes) <= numRequestHosts
 //@ loop 2 invariant [asked] forall k int :: 0 <= k && k < spawncount(0) ==> spawnarg(0, 1)[k] == elems(remotes)[off(remotes) + k].Node
+//@ loop 2 invariant [asked-eligible] forall k int :: 0 <= k && k < spawncount(0) ==> store.inNodes(r, spawnarg(0, 1)[k]) && !has(skipPeers, spawnarg(0, 1)[k].ID)
 //@ loop 3 invariant [accepted] forall q int :: off(accepted) <= q && q < off(accepted) + len(accepted) ==>
 //@        (exists k int :: 0 <= k && k < spawncount(0) && elems(accepted)[q] == spawnarg(0, 1)[k])
+//@ loop 3 invariant [accepted-eligible] forall q int :: off(accepted) <= q && q < off(accepted) + len(accepted) ==>
+//@        store.inNodes(r, elems(accepted)[q]) && !has(skipPeers, elems(accepted)[q].ID)
 //@ loop 3 invariant [lock] !held(p.mu) && len(accepted) + len(errors) + i == len(remotes) && i >= 0 && len(remotes) <= numRequestHosts
 
 // the goroutine asking one host to whitelist the requester: it offers the host on acceptChan only after that host's own
